@@ -204,6 +204,8 @@ def parse_all(r, tier, big=True):
 def pad_stream(r, tier, kinds=None):
     reqs = []
     kinds = kinds or (streams.TYPED + ["unknown", "packet"])
+    if "bye" in kinds:
+        reqs += streams.bye_empty_reason(r)
     for k in kinds:
         for _ in range(250 if tier == "quick" else 3000):
             c = streams.wf_cfg_for(k, r)
@@ -315,7 +317,7 @@ def base_streams_for(pid, r, tier):
     if pid == "C04":
         return build_stream(r, tier, ("bye", "app"), big="light" if tier == "quick" else True) + of_kinds(build_stream(r, "quick", ("pb",)), ("bye", "app"))
     if pid == "C05":
-        return build_stream(r, tier, ("fb",)) + of_kinds(build_stream(r, "quick", ("pb",)), ("tfb", "pfb"))
+        return build_stream(r, tier, ("fb",), big="light" if tier == "quick" else True) + of_kinds(build_stream(r, "quick", ("pb",)), ("tfb", "pfb"))
     if pid == "C17":
         # the two writer helpers the builders are made of are part of what C17 is about: what they
         # write at the position they are given, and that they touch nothing else
@@ -327,7 +329,7 @@ def base_streams_for(pid, r, tier):
         return streams.midsize_padded(r) + streams.congruent_lengths(r) + streams.length_patterns(r) + report_ext(r, tier) + parse_typed(r, tier) + parse_custom(r, tier, 0.15) + pad_stream(r, "quick") + big_light(r)
     if pid == "C09":
         return (report_ext(r, tier) + parse_typed(r, tier, ["sr", "rr", "app", "bye", "tfb", "pfb", "unknown", "packet"])
-                + streams.rb_stream(r, tier))
+                + [x for x in streams.bye_empty_reason(r) if x[1]["op"] == "parse"] + streams.rb_stream(r, tier))
     if pid == "C10":
         return parse_sdes(r, tier) + pad_stream(r, "quick", ["sdes"])
     if pid == "C11":
